@@ -16,6 +16,14 @@ def projects():
     ps.append(('{\n  "a": @a\n}', {'@a': '{ // {allOf: "@nope"}\n}', '@b': '{ // {allOf: "@nope2"}\n}', '@c': '{ // {allOf: ["@d", "@d"]}\n}', '@d': '{"k": 1}'}, {}))
     ps.append(('{\n  "a": "x@y.z", // {type: "email"}\n  "b": "2020-01-01", // {type: "date"}\n  "c": 1 // {type: "any"}\n}', {}, {}))
     ps.append(('{\n  "a": "x" // {type: "email", minLength: 1}\n}', {}, {}))
+    # several refused rules on one node: which one the message names must not depend on chance
+    for fmt, ex in [('email', '"a@b.c"'), ('uri', '"http://a.b"'), ('date', '"2020-01-01"'), ('datetime', '"2021-01-02T07:23:12+03:00"'), ('uuid', '"550e8400-e29b-41d4-a716-446655440000"')]:
+        ps.append(('%s // {type: "%s", minLength: 1, maxLength: 100}' % (ex, fmt), {}, {}))
+        ps.append(('%s // {type: "%s", maxLength: 100, regex: ".", minLength: 1}' % (ex, fmt), {}, {}))
+    ps.append(('1 // {type: "any", const: true, min: 0}', {}, {}))
+    ps.append(('"s" // {min: 1, precision: 2, minItems: 1, additionalProperties: true}', {}, {}))
+    ps.append(('{ // {minLength: 1, min: 1, maxItems: 1, precision: 1, regex: "."}\n}', {}, {}))
+    ps.append(('[ // {minLength: 1, min: 1, additionalProperties: true, precision: 1}\n  1\n]', {}, {}))
     ps.append(('{\n  "a": 1 // {or: [{type: "integer", min: 0}, {type: "string", minLength: 1}]}\n}', {}, {}))
     ps.append(('{\n  "a": @a\n}', {'@a': '1 // {or: [{type: "integer"}, {type: "@b"}]}', '@b': '"s" // {or: [{type: "string", minLength: 1}, {type: "@a"}]}'}, {}))
     ps.append(('{\n  "x": 1 // {enum: @e1}\n}', {'@t': '2 // {enum: @e2}'}, {'@e1': '[1, 2]', '@e2': '[2, 3]'}))
